@@ -512,9 +512,16 @@ def oracle_sequences(ck, tier):
                       [D(reg=("L2", 1.0)), D(reg=("diff", 1.0), degree=2), D(reg=("L2", 1.0), degree=2)],
                       [D(dr=0.5), D(dr=0.5, direction="forward"), D(dr=2.0), D(dr=2.0, direction="forward")]],
         "abel.dasch": [[S("two_point", dr=0.5), S("two_point", dr=0.5), S("three_point", dr=0.5), S("two_point", n=9, dr=2.0)],
-                       [S("onion_peeling", n=25), S("two_point", n=9), S("onion_peeling", n=9, one=True, dr=0.5), S("onion_peeling", n=9, dr=0.5)]],
+                       [S("onion_peeling", n=25), S("two_point", n=9), S("onion_peeling", n=9, one=True, dr=0.5), S("onion_peeling", n=9, dr=0.5)],
+                       # one method's operator read back from its file between two requests for another method (a generated one)
+                       [S("three_point", n=25), S("two_point", n=17), S("three_point", n=25), S("two_point", n=9), S("three_point", n=9)],
+                       [S("two_point", n=25), S("onion_peeling", n=25), S("two_point", n=17), S("onion_peeling", n=17), S("three_point", n=17), S("onion_peeling", n=9)]],
         "abel.linbasex": [[L(angles=[0, np.pi / 4]), L(), L(angles=[0, np.pi / 4]), L()],
-                          [L(orders=[0, 2, 4], angles=[0, 0.6, 1.2, np.pi / 2]), L(step=2), L(orders=[0, 2, 4], angles=[0, 0.6, 1.2, np.pi / 2], step=2)]],
+                          [L(orders=[0, 2, 4], angles=[0, 0.6, 1.2, np.pi / 2]), L(step=2), L(orders=[0, 2, 4], angles=[0, 0.6, 1.2, np.pi / 2], step=2)],
+                          # the same set of angles / orders listed in another order is another request (the projections are stacked in the caller's order)
+                          [L(angles=[0, np.pi / 2]), L(angles=[np.pi / 2, 0]), L(angles=[0, np.pi / 2])],
+                          [L(angles=[0, np.pi / 4, np.pi / 2]), L(angles=[np.pi / 2, np.pi / 4, 0]), L(angles=[np.pi / 4, 0, np.pi / 2])],
+                          [L(orders=[0, 2]), L(orders=[2, 0]), L(orders=[0, 2, 4], angles=[0, 0.6, 1.2]), L(orders=[4, 0, 2], angles=[0, 0.6, 1.2])]],
         "abel.rbasex": [[R(origin=(7, 10), rmax=10, order=1, odd=True, out="same"), R(origin=(7, 10), rmax=10, order=1, odd=True, out="full"),
                          R(origin=(7, 10), rmax=10, order=1, odd=True, out="same")],
                         [R(order=2, direction="forward"), R(order=4, direction="forward"), R(order=2, direction="forward", out="full"), R(order=6, direction="forward", out="full")],
@@ -559,6 +566,55 @@ def oracle_sequences(ck, tier):
                                          f"{short}: call {ci} of curated session {si} (basis_dir={use_dir}) differs from the pristine-state result")
                             break
         mod.cache_cleanup()
+
+
+def oracle_failed_saves(ck, tier):
+    """a call that fails while saving its basis (basis_dir that cannot be written) is part of the history like any other: the
+    calls after it return what they return in a fresh process (repair F60: daun kept the new basis under the old parameters)"""
+    import abel
+    from abel import basex, dasch, daun, linbasex, rbasex
+    rng = np.random.default_rng(seed() + 760)
+    half = rng.random((4, 15))
+    full = rng.random((21, 21))
+    bad = os.path.join(tempfile.gettempdir(), "pyabel_verif_no_such_dir", "x")          # never created
+    families = {
+        "daun": (daun.cache_cleanup, [lambda d, k=k: daun.daun_transform(half, direction=k[0], degree=k[1], reg=k[2], basis_dir=d, verbose=False)
+                                      for k in [("forward", 1, None), ("forward", 2, None), ("inverse", 0, None), ("inverse", 3, None),
+                                                ("inverse", 1, ("L2", 2.0)), ("forward", 0, None)]]),
+        "dasch": (dasch.cache_cleanup, [lambda d, m=m: getattr(dasch, m + "_transform")(half, basis_dir=d) for m in ("two_point", "three_point", "onion_peeling")]),
+        "basex": (basex.cache_cleanup, [lambda d, k=k: basex.basex_transform(half, sigma=k[0], reg=k[1], direction=k[2], basis_dir=d, verbose=False)
+                                        for k in [(1.0, 0.0, "inverse"), (2.0, 0.0, "inverse"), (1.0, 3.0, "inverse"), (1.0, 0.0, "forward")]]),
+        "linbasex": (linbasex.cache_cleanup, [lambda d, k=k: linbasex.linbasex_transform_full(full, proj_angles=k[0], legendre_orders=k[1], basis_dir=d)[1]
+                                              for k in [([0, np.pi / 2], [0, 2]), ([0, np.pi / 4, np.pi / 2], [0, 2]), ([0, np.pi / 2], [0, 2, 4])]]),
+        "rbasex": (rbasex.cache_cleanup, [lambda d, k=k: rbasex.rbasex_transform(full, order=k[0], direction=k[1], reg=k[2], basis_dir=d)[0]
+                                          for k in [(2, "inverse", None), (4, "inverse", None), (2, "forward", None), (2, "inverse", ("L2", 1.0))]]),
+    }
+    for name, (cleanup, calls) in families.items():
+        refs = []
+        for c in calls:
+            cleanup()
+            refs.append(np.array(quiet(c, None), float))
+        pairs = [(a, b) for a in range(len(calls)) for b in range(len(calls)) if a != b]
+        for a, b in pairs:
+            ck.count(("S.failed-save", name, a, b), suite="S.failed-saves")
+            cleanup()
+            try:
+                first = np.array(quiet(calls[a], None), float)
+                try:
+                    quiet(calls[b], bad)
+                    failed = False
+                except Exception:
+                    failed = True
+                again = np.array(quiet(calls[a], None), float)
+            except Exception as e:
+                ck.violation(dict(site=name, clause="failed-save-history-exception"), dict(module=name, call=a, failing=b), f"{type(e).__name__}: {e}")
+                continue
+            tol = 1e-9 * max(1.0, float(np.abs(refs[a]).max()))
+            if first.shape != refs[a].shape or again.shape != refs[a].shape or np.abs(again - refs[a]).max() > tol:
+                ck.violation(dict(site=name, clause="failed-save-history"), dict(module=name, call=a, failing=b, save_failed=failed),
+                             f"{name}: call #{a}, then call #{b} with an unwritable basis_dir ({'raised' if failed else 'returned'}), then call #{a} again: "
+                             f"the last result differs from the fresh-process value by {np.abs(again - refs[a]).max() if again.shape == refs[a].shape else 'shape'}")
+        cleanup()
 
 
 def oracle_cleanup_exact(ck):
@@ -643,6 +699,7 @@ def run(tier):
     oracle_sequences(ck, tier)
     oracle_transform(ck, tier, deep or bool(ck.broken))
     oracle_cleanup_exact(ck)
+    oracle_failed_saves(ck, tier)
     from harness import rbxmachine
     rbxmachine.run_sessions(ck, tier)              # rbasex's in-memory transform caches vs the Lean machine of C07Rbasex
     from harness import bxmachine
